@@ -8,6 +8,7 @@ correspondence: harness/c14_transform.cpp (real library, XalanTransformer) vs le
 """
 import json
 import os
+import shutil
 import subprocess
 import sys
 import threading
@@ -23,10 +24,10 @@ CLAIMED = True
 LEVEL = "proof"
 TECHNIQUE = ("Lean 4 proofs (induction over arbitrary engine-request sequences and over instruction trees, refinement of the "
              "lazily created namespace stack to a plain stack of frames, per-site theorems for the old and the repaired form of "
-             "eleven code sites) about a hand model of XSLTEngineImpl's result-event machine and NamespacesHandler; a regex "
+             "twelve code sites (plus fixed-form obligations on the alias copy/override functions and the import order)) about a hand model of XSLTEngineImpl's result-event machine and NamespacesHandler; a regex "
              "translator (translate/c14_variant.py) selects the model variant the working tree has; correspondence run of "
              "generated stylesheets against the real library with a namespace-aware re-parse and an independent oracle")
-LEVEL_TEXT = ("Machine-checked (Props/C14.lean, 24 theorems): for EVERY sequence of engine requests, and for every instruction "
+LEVEL_TEXT = ("Machine-checked (Props/C14.lean, 27 theorems): for EVERY sequence of engine requests, and for every instruction "
               "tree run by the model's interpreter, no pending start tag holds two attributes with one qname; the invented "
               "ns<N> prefix is unbound in the whole namespace stack (pigeonhole); the lazily created XalanNamespacesStack "
               "refines a plain stack of frames for every push/pop/add history; in every engine state xsl:attribute (with and "
@@ -43,7 +44,7 @@ LEVEL_TEXT = ("Machine-checked (Props/C14.lean, 24 theorems): for EVERY sequence
               "of every real output against what the stylesheet asked for.")
 LEVEL_NOTE = ("Trusted: Lean kernel (leanchecker in the thorough tier); axioms propext/Classical.choice/Quot.sound only; the hand "
               "transcription XalanModel/C14/{Engine,Stylesheet}.lean, validated by the correspondence run and bounded by generator "
-              "coverage; translate/c14_variant.py (normalised-text recognition of eleven code sites, cross-checked by the "
+              "coverage; translate/c14_variant.py (normalised-text recognition of twelve code sites (plus fixed-form obligations on the alias copy/override functions and the import order), cross-checked by the "
               "correspondence run); QName strings abstracted to (prefix, local) pairs; expat as reference parser; the oracle in "
               "gen/c14_gen.py. There is no single end-to-end theorem 'exec output has the requested names': the theorems are "
               "per engine operation / per code site and about qname uniqueness for whole trees; the interpreter exec is "
@@ -79,6 +80,9 @@ THEOREMS = [
     "XalanModel.Props.C14.handler_own_bindings_first_fixed",
     "XalanModel.Props.C14.xml_like_prefix_is_ordinary_fixed",
     "XalanModel.Props.C14.xml_like_prefix_counterexample",
+    "XalanModel.Props.C14.alias_override_assigns",
+    "XalanModel.Props.C14.alias_copy_keeps",
+    "XalanModel.Props.C14.alias_highest_precedence_wins",
 ]
 
 XML = G.XML
@@ -240,7 +244,7 @@ def compare(exp, act):
             for p, u in a["decls"]:
                 if u in e.get("aliased", ()) and u not in used:
                     return ("alias-source-emitted", e["id"], "xmlns%s=%s on %s is the stylesheet side of a namespace-alias and unused" % (":" + p if p else "", u, a["qname"]))
-                if not e.get("aliased") and u in e.get("excluded", ()) and u not in used:
+                if not e.get("hasAlias") and u in e.get("excluded", ()) and u not in used:
                     return ("excluded-emitted", e["id"], "xmlns%s=%s on %s is excluded and unused" % (":" + p if p else "", u, a["qname"]))
         r = compare(e["kids"], a["kids"])
         if r:
@@ -324,16 +328,20 @@ def run_impl(harness, lines, nproc):
     out = [None] * n
     chunks = [list(range(k, n, nproc)) for k in range(nproc)]
 
-    def work(idx):
+    def work(idx, k):
         if not idx:
             return
         data = ("\n".join(lines[i] for i in idx) + "\n").encode()
-        p = subprocess.run([harness], input=data, stdout=subprocess.PIPE, stderr=subprocess.PIPE)
+        # imported modules of a case are written here by the harness (one directory per harness process)
+        d = os.path.join(common.CACHE, "work", "c14_modules_%d_%d" % (os.getpid(), k))
+        os.makedirs(d, exist_ok=True)
+        p = subprocess.run([harness, d], input=data, stdout=subprocess.PIPE, stderr=subprocess.PIPE)
+        shutil.rmtree(d, ignore_errors=True)
         rep = p.stdout.decode("utf-8", "replace").split("\n")
         for j, i in enumerate(idx):
             if j < len(rep) and rep[j]:
                 out[i] = rep[j]
-    th = [threading.Thread(target=work, args=(c,)) for c in chunks]
+    th = [threading.Thread(target=work, args=(c, k)) for k, c in enumerate(chunks)]
     [t.start() for t in th]
     [t.join() for t in th]
     return out
@@ -353,7 +361,8 @@ def run_cases(harness, model, cases, nproc=8):
     for c in cases:
         xsl = G.case_xsl(c).encode().hex()
         sx = G.src_xml(c["src"]).encode().hex()
-        ilines.append(xsl + " " + sx)
+        extra = "".join(" m%d.xsl=%s" % (k + 1, G.module_xsl(c, k + 1).encode().hex()) for k in range(len(c.get("mods", []))))
+        ilines.append(xsl + " " + sx + extra)
         mlines.append(G.case_tokens(c))
     res = {}
 
@@ -400,11 +409,20 @@ def load_corpus():
                 out.append(json.load(open(os.path.join(d, f)))["case"])
     for c in out:
         c["aliases"] = [tuple(x) for x in c.get("aliases", [])]
+        fix_mods(c)
         c["rootdecls"] = [tuple(x) for x in c["rootdecls"]]
         fix_tuples(c["src"])
         for b in c["body"]:
             fix_instr(b)
     return out
+
+
+def fix_mods(c):
+    for md in c.get("mods", []):
+        md["rootdecls"] = [tuple(x) for x in md["rootdecls"]]
+        md["aliases"] = [tuple(x) for x in md["aliases"]]
+        for b in md["body"]:
+            fix_instr(b)
 
 
 def fix_tuples(n):
@@ -555,6 +573,7 @@ def replay(ctx, path):
         return 1
     case["rootdecls"] = [tuple(x) for x in case["rootdecls"]]
     case["aliases"] = [tuple(x) for x in case.get("aliases", [])]
+    fix_mods(case)
     fix_tuples(case["src"])
     for b in case["body"]:
         fix_instr(b)
